@@ -38,7 +38,7 @@ class ElabWorld(World):
     )
 
     def runs(self, prop, tier):
-        return {"quick": 700, "thorough": 25000}[tier]
+        return {"quick": 1000, "thorough": 25000}[tier]
 
     def rule(self, prop):
         return ("cases = (component class, configuration, elaborate/simulate history); non-trivial "
@@ -180,7 +180,14 @@ class ElabWorld(World):
         stats.probe("class_" + cls, 1)
 
     def shrink_config(self, config, ops):
-        return ()
+        # delegate to the world whose generator produced the component configuration
+        sub = {"csr.Multiplexer": "mux", "wishbone.Decoder": "wbdec", "wishbone.Arbiter": "arbiter",
+               "WishboneSRAM": "sram", "gpio.Peripheral": "gpio"}.get(config["cls"])
+        if sub is None:
+            return
+        from worlds import get_world
+        for c, _ in get_world(sub).shrink_config(config["cfg"], []):
+            yield dict(config, cfg=c), ops
 
     def sample(self, config, ops):
         return {"config": config, "ops": ops}
